@@ -55,24 +55,24 @@ CHECKS = {
    design="6", technique="Coq proof (global invariant; dropped ids are never re-listed) + trace-equality tie under a scheduler",
    note="as C04; 'complete, valid table of the stack's hash type' at the byte level is checked on the Go side by decoding every listed table in every snapshot"),
  "C06": dict(
-   text="c06_ok = c04_ok && c05_ok && c10_ok on traces with a crash before every step of every operation kind, other handles continuing afterwards; C04 and C05 are theorems for all schedules with crashes (a crash is a transition of the model), the C10 part is judged on the Go traces and on the model tie (its all-traces proof is in progress)",
-   design="6", technique="Coq proof (crash transitions are part of the C04/C05 theorems) + crash-point enumeration under the scheduler",
+   text="Coq theorem C06_crash_atomic = c06_all_traces: for EVERY schedule in which any handle is killed before any of its fs operations (Crash transitions of the model; other handles continue), c04_ok && c05_ok && c10_ok hold of the trace: after every operation the list names complete tables in increasing ranges holding exactly the committed transactions in commit order, nothing listed is removed, Add's success means committed, survivors' reads work. Tied: Go traces with a crash before each step of each operation kind must equal the model's trace; extracted predicate judges every Go trace",
+   design="6", technique="Coq proof (crash transitions in the all-schedules theorems) + trace-equality tie with crash-point enumeration",
    note="process crashes only (no power loss: the property excludes it); as C04"),
  "C08": dict(
    text="Coq theorem c08_all_traces with NO hypotheses: in every trace of the model every successful remove / rename of a *.lock path is by the handle whose exclusive create made it, and no lock path has two owners; proved from wp_call_prog: every API program respects lock ownership whatever the file system answers. Tie and direct judging as C04",
    design="6", technique="Coq proof (ownership Hoare logic over the free-monad programs + world invariant) + trace-equality tie",
    note="as C04"),
  "C09": dict(
-   text="trace predicate c09_ok (stale undisturbed Add: ErrLockFailure, directory unchanged, handle refreshed; up-to-date, lock-free undisturbed Add: commits) judged on every Go trace of the stale-handle and pair scenarios; model tied trace-for-trace; all-traces Coq proof in progress",
-   design="6", technique="extracted Coq trace predicate + trace-equality tie (proof pending)",
-   note="as C04; no all-traces theorem yet for this predicate"),
+   text="Coq theorems (all schedules): C09_stale_gc -- an undisturbed Add through a stale handle returns ErrLockFailure, leaves tables.list / listed tables / locks / temps untouched (only unlisted table files may be unlinked by its reload) and refreshes the handle; through an up-to-date handle with the lock free it commits; C09_stale_strict -- literally unchanged directory under a precondition that holds at every quiescent instant. The unconditional literal statement is refuted by a machine-checked schedule (compactor paused between commit and removes): known finding C09-gc. Tied trace-for-trace to the Go code (stale-handle scenarios incl. single-table stacks)",
+   design="6", technique="Coq proof (symbolic execution of Add against the abstract fs inside the all-schedules invariant) + refutation witness + trace-equality tie",
+   note="as C04; the literal 'directory unchanged' clause is a recorded finding (benign garbage collection by the failed Add's reload)"),
  "C10": dict(
-   text="trace predicate c10_ok (every read = a prefix of the commit order, monotone per handle, matching 'shared'; after every call all held readers open and the held names are one version of tables.list) judged on every Go trace incl. the reload give-up clock; model tied trace-for-trace; all-traces Coq proof in progress",
-   design="6", technique="extracted Coq trace predicate + trace-equality tie (proof pending)",
-   note="as C04; when the time-bounded reload loop gives up the handle keeps its previous snapshot (one committed version, all readers open) and reload reports success: see DESIGN.md C10-giveup"),
+   text="Coq theorem C10_snapshot = c10_all_traces (all schedules, crashes included): every read shows exactly a prefix of the commit order (one committed version), monotone per handle, with the matching 'shared' value; no read fails; after every call all held readers are open and the held names are one version tables.list really had; a first load that loses every race fails instead of yielding an empty stack (defect found by this proof and fixed). Tied trace-for-trace incl. the reload give-up clock and hand-placed reload-vs-compaction windows",
+   design="6", technique="Coq proof (version/prefix invariant over all interleavings) + trace-equality tie",
+   note="as C04; when the time-bounded reload loop gives up on a handle that already has a snapshot, the handle keeps it and reload reports success (the property's 'or reports failure' alternative is used for the first load only)"),
  "C16": dict(
-   text="Coq theorem idle_owns_nothing (all schedules): a handle that is not inside a call owns no lock file and no temp file; trace predicate c16_ok (quiescent directory = tables.list + listed tables; Close/Clean succeed also on an empty stack; nothing panics) judged on every Go trace; all-traces proof of c16_ok in progress",
-   design="6", technique="Coq proof (ownership logic) + extracted trace predicate + trace-equality tie",
+   text="Coq theorems (all schedules): C16_quiescent_clean = c16_all_traces -- nothing panics, Close succeeds on any stack, and whenever no handle is inside a call and nobody crashed the directory is exactly tables.list plus the tables it names; C16_idle_owns_nothing -- also after crashes of others an idle handle owns no lock and no temp file. Tied trace-for-trace; Clean is judged on Go traces by the extracted predicate only",
+   design="6", technique="Coq proof (ownership logic + residue judgement over all interleavings) + trace-equality tie",
    note="as C04"),
  "C15": dict(
    category="translation_validation",
